@@ -102,7 +102,7 @@ Fixpoint naive_records (fuel : nat) (d : bytes) : option (list bytes) :=
              else let l := le32 d in
                   let r := skipn 4 d in
                   if (l =? 4294967295)%N then naive_records f r
-                  else if length r <? N.to_nat l then None
+                  else if (N.of_nat (length r) <? l)%N then None   (* compared in N: l may be garbage *)
                   else option_map (cons (firstn (N.to_nat l) r)) (naive_records f (skipn (N.to_nat l) r))
       end
   end.
@@ -116,10 +116,10 @@ Fixpoint offsets_in_range (fuel : nat) (data offs : bytes) : bool :=
       match offs with
       | [] => true
       | _ => if length offs <? 4 then false
-             else let o := N.to_nat (le32 offs) in
-                  Nat.leb (o + 4) (length data) &&
-                  Nat.leb (o + 4 + N.to_nat (le32 (skipn o data))) (length data) &&
-                  offsets_in_range f data (skipn 4 offs)
+             else let o := le32 offs in      (* compared in N: an offset may be garbage *)
+                  if (N.of_nat (length data) <? o + 4)%N then false
+                  else (o + 4 + le32 (skipn (N.to_nat o) data) <=? N.of_nat (length data))%N &&
+                       offsets_in_range f data (skipn 4 offs)
       end
   end.
 
@@ -212,7 +212,8 @@ Definition case_agrees (c : case) : bool :=
       forallb (fun p => match p with
                         | (f, (ft, lt, ord), toks) =>
                             Z.eqb ft 1 && Z.eqb lt (ap_last_tid st f) && negb ord &&
-                            list_eqb obytes_eqb (map (fun i => ap_get_token st f (Z.of_nat i)) (seq 1 (Z.to_nat lt))) toks
+                            Z.eqb lt (Z.of_nat (length toks)) &&
+                            list_eqb obytes_eqb (map (fun i => ap_get_token st f (Z.of_nat i)) (seq 1 (length toks))) toks
                         end) prov
   end.
 
@@ -276,6 +277,8 @@ Definition case_spec_ok (c : case) : bool :=
              Z.eqb (e_val_count e) (Z.of_nat (length (d_tokens b))) &&
              bytes_eqb (e_max_val e) (last (d_tokens b) []) &&
              Z.leb b0 (e_block_index e) && Z.leb 0 (e_start_index e) &&
+             Z.ltb (e_block_index e - b0) (Z.of_nat (length disk)) &&
+             Z.leb (e_start_index e) (Z.of_nat (length (nth (Z.to_nat (e_block_index e - b0)) disk []))) &&
              match records (nth (Z.to_nat (e_block_index e - b0)) disk []) with
              | Some recs => blist_eqb (firstn (length (d_tokens b)) (skipn (Z.to_nat (e_start_index e)) recs))
                                       (d_tokens b)
